@@ -134,10 +134,11 @@ def wEmpty : World :=
   ⟨[(root, ⟨0, [.mark, .load .use [109, 47, 108, 105, 98] false, .load .use [109, 47, 47, 108, 105, 98] false]⟩),
     ([109, 47, 108, 105, 98, 46, 115, 99, 115, 115], ⟨1, [.mark]⟩)], [[]], fun _ => none⟩
 
-/-- refutation (`normalizeKeepsEmpty`, open; incomplete repair 51f269b): `m/lib` and `m//lib` -/
+/-- refutation (`normalizeKeepsEmpty`; 51f269b incomplete, completed by 3fe5f5c): `m/lib` and `m//lib` -/
 theorem normalizeKeepsEmpty_refuted :
     (run LoadQuirks.spec wEmpty wEmpty.fuel root).markers = [.file 0, .file 1] ∧
-    (run LoadQuirks.now wEmpty wEmpty.fuel root).markers = [.file 0, .file 1, .file 1] := by
+    (run LoadQuirks.mid wEmpty wEmpty.fuel root).markers = [.file 0, .file 1, .file 1] ∧
+    (run LoadQuirks.now wEmpty wEmpty.fuel root).markers = [.file 0, .file 1] := by
   decide +kernel
 
 /-- `in.scss`: `@use "m/lib"; @use "./m/lib"`; `m/lib.scss`: marker -/
